@@ -587,7 +587,8 @@ func main() {
 					ur := do(p, "CLIENT", "UNBLOCK", fmt.Sprint(target))
 					close(gate)
 					if _, done := get(ch, 400*time.Millisecond); !done {
-						known("D31", "a CLIENT UNBLOCK that arrives after the client registered for the key but before it captured its unblock channel is lost (reply "+strings.TrimSpace(ur)+"): the client stays blocked")
+						fail("early-unblock", round, []string{"A: " + strings.Join(mk(tmpl, "tk", "0"), " ") + " (parked after registering for the key)", "P: CLIENT UNBLOCK <A> -> " + strings.TrimSpace(ur), "A: resumes"},
+							"a CLIENT UNBLOCK that arrived after the client registered for the key but before it captured its unblock channel was lost: the client stays blocked")
 						do(p, "CLIENT", "UNBLOCK", fmt.Sprint(target))
 						get(ch, time.Second)
 					}
